@@ -62,12 +62,8 @@ pub struct ESub {
 
 impl ESub {
     pub fn parser<'a>() -> impl Parser<FrameStream<'a>, Output = ESub> + 'a {
-        (
-            Selector::parser(),
-            optional(from_versions()),
-            optional(window()),
-        )
-            .map(|(selector, from_versions, window_size)| {
+        (Selector::parser(), clauses())
+            .map(|(selector, (from_versions, window_size))| {
                 let matcher = match selector {
                     Selector::StreamId {
                         stream_id,
@@ -205,6 +201,16 @@ fn from_versions<'a>() -> impl Parser<FrameStream<'a>, Output = FromVersionsArg>
 
 fn window<'a>() -> impl Parser<FrameStream<'a>, Output = u64> + 'a {
     keyword("WINDOW").with(number_u64_min(1))
+}
+
+// [FROM ...] [WINDOW <size>], in either order
+fn clauses<'a>()
+-> impl Parser<FrameStream<'a>, Output = (Option<FromVersionsArg>, Option<u64>)> + 'a {
+    optional(choice((
+        (from_versions(), optional(window())).map(|(from, window)| (Some(from), window)),
+        (window(), optional(from_versions())).map(|(window, from)| (from, Some(window))),
+    )))
+    .map(Option::unwrap_or_default)
 }
 
 impl HandleRequest for ESub {
